@@ -5,6 +5,7 @@ import (
 	"fmt"
 	"reflect"
 
+	dyaml "github.com/vimeo/dials/decoders/yaml"
 	"github.com/vimeo/dials/ptrify"
 	"verifharness/internal/coqfmt"
 )
@@ -17,6 +18,12 @@ func debugCase(line string) {
 	}
 	r := coqfmt.NewRng(in.State)
 	wrapMode = in.Wrap
+	fieldCtr = 0
+	embedOK = in.Embed
+	flatMode = in.K == "flat"
+	if flatMode {
+		decoders[1] = &dyaml.Decoder{FlattenAnonymous: true}
+	}
 	T := genType(r, 0, in.Depth, in.Width)
 	PT := ptrify.Pointerify(T, reflect.New(T).Elem())
 	bad := 0
@@ -30,6 +37,9 @@ func debugCase(line string) {
 	fmt.Println(T)
 	for f := 0; f < 4; f++ {
 		text := render(f, d)
+		if flatMode && f != 1 {
+			continue
+		}
 		if in.K == "corrupt" {
 			if f != in.Fmt {
 				continue
